@@ -62,16 +62,17 @@ func (cp *Checkpoint) Destroy() error {
 }
 
 func (cp *Checkpoint) Document() checkpointDocument {
-	if len(cp.WALs) > 1 {
-		panic("should not serialize a checkpoint with multiple WALs")
-	}
 	doc := checkpointDocument{
 		ID:         cp.ID,
 		Levels:     cp.Levels.Document(),
 		LastSeqNum: cp.LastSeqNum,
 	}
-	if len(cp.WALs) == 1 {
-		doc.WALs = []wal.HandleDocument{cp.WALs[0].Document()}
+
+	// A checkpoint that was merged from the checkpoints of several instances has
+	// one WAL per instance. It stays in the list until the next checkpoint is
+	// retained instead, so it has to be serializable like any other.
+	for _, w := range cp.WALs {
+		doc.WALs = append(doc.WALs, w.Document())
 	}
 
 	return doc
